@@ -47,6 +47,9 @@ pub struct Case {
     pub fault: Fault,
     /// use the default destination (<name>.lc3 in the working directory)
     pub default_dest: bool,
+    /// how the files are called (`cli::stem`); 0 = `prog`
+    #[serde(default)]
+    pub name: u8,
 }
 
 /// Insert, at statement position `pos`, a reference to a label that is defined but out of reach
@@ -98,7 +101,7 @@ pub fn judge_case(c: &Case) -> Obs {
         }
     };
     let text = refasm::render(&program, Layout::CANON).text;
-    obs.key = hash_of(&(&text, c.dest, c.fault, c.default_dest));
+    obs.key = hash_of(&(&text, c.dest, c.fault, c.default_dest, c.name));
     obs.nontrivial = c.fail_at.is_some() || c.back_total.is_some() || c.fault != Fault::None;
     obs.show = Some(format!("fail_at={:?} dest={:?} fault={:?} default_dest={} stack={}\n{}", c.fail_at, c.dest, c.fault, c.default_dest, built.stack, text));
     obs.label(match c.dest {
@@ -122,7 +125,12 @@ pub fn judge_case(c: &Case) -> Obs {
         obs.label("backward-reference-at-exact-program-size");
     }
     let dir = TempDir::new();
-    dir.write("prog.asm", text.as_bytes());
+    let stem = cli::stem(c.name as u64);
+    let src_name = format!("{stem}.asm");
+    if c.name % 28 > 7 {
+        obs.label("unusual-file-name");
+    }
+    dir.write(&src_name, text.as_bytes());
     // destination
     let old_short: Vec<u8> = b"OLD!".to_vec();
     let old_long: Vec<u8> = (0..20000u32).map(|i| (i % 251) as u8).collect();
@@ -135,9 +143,11 @@ pub fn judge_case(c: &Case) -> Obs {
         }
         _ => {
             if c.default_dest {
-                (None, Some(dir.path().join("prog.lc3")))
+                (None, Some(dir.path().join(format!("{stem}.lc3"))))
             } else {
-                (Some("out.lc3".into()), Some(dir.path().join("out.lc3")))
+                // (the explicit destination carries the same kind of name)
+                let out = if c.name % 28 > 7 { format!("{stem}.out.lc3") } else { "out.lc3".to_string() };
+                (Some(out.clone()), Some(dir.path().join(out)))
             }
         }
     };
@@ -201,7 +211,7 @@ pub fn judge_case(c: &Case) -> Obs {
             }
         }
     }
-    let mut args: Vec<&str> = vec!["compile", "prog.asm"];
+    let mut args: Vec<&str> = vec!["compile", &src_name];
     if let Some(d) = &dest_arg {
         args.push(d);
     }
@@ -277,7 +287,7 @@ impl Prop for C08 {
         true
     }
     fn rule(&self) -> &'static str {
-        "For each generated ProgGen program of n <= ~14 statements: the valid program and an out-of-reach label reference (BR/LD/LEA/ST/JSR in turn) placed at EVERY statement position 0..n (padding barely / comfortably / far beyond the field's reach), and a backward reference from the last to the first statement in programs of exactly 255..259 and 300 words, x destination {absent, pre-existing with known contents, pre-existing and longer than the new image, the new image followed by further words (object file of a longer version of the program), the first half of the new image, exactly the new image} x default / explicit destination; and the destination faults {/dev/full, path in a non-existent directory, path that is a directory, read-only file}. `lace compile` is the real binary (guard off). \
+        "For each generated ProgGen program of n <= ~14 statements: the valid program and an out-of-reach label reference (BR/LD/LEA/ST/JSR in turn) placed at EVERY statement position 0..n (padding barely / comfortably / far beyond the field's reach), and a backward reference from the last to the first statement in programs of exactly 255..259 and 300 words, x destination {absent, pre-existing with known contents, pre-existing and longer than the new image, the new image followed by further words (object file of a longer version of the program), the first half of the new image, exactly the new image} x default / explicit destination; the valid program and one failing one under 20 kinds of file name (dotted stems, long, blank, leading dot, 2- and 3-byte characters up to and beyond 64 bytes at every byte-offset parity); and the destination faults {/dev/full, path in a non-existent directory, path that is a directory, read-only file}. `lace compile` is the real binary (guard off). \
          Oracle: exit 0 => the destination holds exactly origin ++ words of the RefAsm image (big-endian); exit != 0 => the destination's bytes / absence are exactly as before; a destination that cannot take the data must not end in exit 0. \
          Non-trivial: a failure is injected (emission position or I/O fault). Distinct = hash(source, destination state, fault). The enumerated fault set is complete per program (exhaustive over positions x destination states x listed faults); programs are sampled."
     }
@@ -319,20 +329,27 @@ impl Prop for C08 {
             for fail_at in positions {
                 for (k, dest) in [Dest::Absent, Dest::ExistingShort, Dest::ExistingLong, Dest::ExistingExtends, Dest::ExistingPrefix, Dest::ExistingSame].into_iter().enumerate() {
                     n += 1;
-                    let case = Case { spec: spec.clone(), fail_at, back_total: None, dest, fault: Fault::None, default_dest: (n + k as u64) % 3 == 0 };
+                    let case = Case { spec: spec.clone(), fail_at, back_total: None, dest, fault: Fault::None, default_dest: (n + k as u64) % 3 == 0, name: 0 };
+                    judge_one(ctx, rep, &case, &mut |c| judge_case(c));
+                }
+            }
+            // the valid program and one failing one under every kind of file name, both destinations
+            for name in 8..28u8 {
+                for (fail_at, dest, default_dest) in [(None, Dest::Absent, false), (None, Dest::ExistingLong, true), (Some(nstmts / 2), Dest::ExistingShort, name % 2 == 0)] {
+                    let case = Case { spec: spec.clone(), fail_at, back_total: None, dest, fault: Fault::None, default_dest, name };
                     judge_one(ctx, rep, &case, &mut |c| judge_case(c));
                 }
             }
             // backward references in programs whose total size sits right at the reach of a 9-bit field
             for total in [255usize, 256, 257, 258, 259, 300] {
                 for dest in [Dest::Absent, Dest::ExistingLong] {
-                    let case = Case { spec: spec.clone(), fail_at: None, back_total: Some(total), dest, fault: Fault::None, default_dest: false };
+                    let case = Case { spec: spec.clone(), fail_at: None, back_total: Some(total), dest, fault: Fault::None, default_dest: false, name: 0 };
                     judge_one(ctx, rep, &case, &mut |c| judge_case(c));
                 }
             }
             for fault in [Fault::DevFull, Fault::MissingDir, Fault::IsDirectory, Fault::ReadOnlyFile] {
                 for fail_at in [None, Some(0), Some(nstmts / 2)] {
-                    let case = Case { spec: spec.clone(), fail_at, back_total: None, dest: Dest::Absent, fault, default_dest: false };
+                    let case = Case { spec: spec.clone(), fail_at, back_total: None, dest: Dest::Absent, fault, default_dest: false, name: 0 };
                     judge_one(ctx, rep, &case, &mut |c| judge_case(c));
                 }
             }
